@@ -1,1 +1,405 @@
-/-! # C13 — property theorems (stub) -/
+import Okane.Lemmas.C13Perm
+/-!
+# C13 — same input, same output: runs are deterministic
+
+Rust's `HashMap`/`HashSet` use a per-process random seed, so the order in which a map is iterated differs from
+process to process.  In the model a hash map is an association list (`AMap`) whose order *is* the iteration order,
+and "the result does not depend on the hash seed" is "the result is the same for every permutation (`List.Perm`) of
+the entries".  This file proves that for every place where `core/src/report` iterates a map
+(`tools/hash_iter_sites.py` lists them, `corpus/C13/iteration_sites.json` maps each site to the theorem or to the
+sort that covers it):
+
+* amount arithmetic: `add_perm`, `sub_perm`, `getPart_add_perm`, `isZero_perm`, `removeZero_perm`, `round_perm`,
+  `neg_perm`, `mulScalar_perm`, `toPosting_perm`, `toSingle_perm`, `assertBalance_perm`, `setPartial_perm`;
+* `check_balance` / `maybe_pair`: `impliedExchange_perm`, `fillConverted_swap`, `priceRecords_swap`,
+  `pushRecords_swap`, `checkBalance_perm`;
+* printing: `inlineDisplay_perm` (the repaired `InlinePrintAmount`), `balanceReport_reorder`,
+  `accountsReport_perm`, `bkErrText_unbalanced_perm`, `bkErrText_assertion_perm`, `C13_balance_report`;
+* negations / witnesses: `inlineDisplayUnsorted_order_dependent` (F13 before its fix), `maybePair_order_dependent`,
+  `C13_andElement_false` (F14, still open in the importer).
+
+The end-to-end statements `C13_<command>` are `Prop`s (section EndToEnd); the process-level stream of `bin/check C13`
+observes them on the real binary.
+-/
+set_option linter.unusedSectionVars false
+set_option linter.unusedSimpArgs false
+namespace Okane.C13
+open Okane
+variable {κ ν : Type} [DecidableEq κ]
+
+
+/-! ## Amounts -/
+namespace Amount
+open Okane.Amount
+
+/-- `get_part` does not depend on the iteration order. -/
+theorem getPart_perm {a a' : Amount κ} (h : a.Perm a') (hwf : AMap.WF a) (c : κ) :
+    getPart a c = getPart a' c := getPart_ext (Ext.of_perm h hwf) c
+
+/-- **`self += rhs`**: the resulting map does not depend on the iteration order of either operand
+(`rhs` is the one that is iterated; it need not even have unique keys). -/
+theorem add_perm {a a' b b' : Amount κ} (ha : a.Perm a') (hwf : AMap.WF a) (hb : b.Perm b') :
+    Ext (add a b) (add a' b') := by
+  have h1 := foldAdd_perm (fun v => v) hb a
+  have h2 := foldAdd_ext (fun v => v) b' (Ext.of_perm ha hwf)
+  exact h1.trans h2
+
+theorem getPart_add_perm {a a' b b' : Amount κ} (ha : a.Perm a') (hwf : AMap.WF a) (hb : b.Perm b') (c : κ) :
+    getPart (add a b) c = getPart (add a' b') c := getPart_ext (add_perm ha hwf hb) c
+
+/-- **`self -= rhs`**. -/
+theorem sub_perm {a a' b b' : Amount κ} (ha : a.Perm a') (hwf : AMap.WF a) (hb : b.Perm b') :
+    Ext (sub a b) (sub a' b') := by
+  have h1 := foldAdd_perm (fun v => -v) hb a
+  have h2 := foldAdd_ext (fun v => -v) b' (Ext.of_perm ha hwf)
+  exact h1.trans h2
+
+/-- `is_zero` -/
+theorem isZero_perm {a a' : Amount κ} (h : a.Perm a') : isZero a = isZero a' := by
+  unfold isZero; exact h.all_eq
+
+/-- `is_absolute_zero` -/
+theorem isAbsoluteZero_perm {a a' : Amount κ} (h : a.Perm a') : isAbsoluteZero a = isAbsoluteZero a' := by
+  unfold isAbsoluteZero
+  cases a with
+  | nil => simp [List.nil_perm.1 h]
+  | cons x xs =>
+    cases a' with
+    | nil => exact absurd h.symm (by simp)
+    | cons y ys => rfl
+
+/-- `remove_zero_entries` (`retain`) -/
+theorem removeZero_perm {a a' : Amount κ} (h : a.Perm a') : (removeZero a).Perm (removeZero a') := by
+  unfold removeZero AMap.filterVals; exact h.filter _
+
+/-- `round` / `round_mut` -/
+theorem round_perm (prec : κ → Option Nat) {a a' : Amount κ} (h : a.Perm a') :
+    (round prec a).Perm (round prec a') := by
+  unfold round AMap.mapValsK; exact h.map _
+
+/-- `negate` -/
+theorem neg_perm {a a' : Amount κ} (h : a.Perm a') : (neg a).Perm (neg a') := by
+  unfold neg AMap.mapVals; exact h.map _
+
+/-- `*= rhs` -/
+theorem mulScalar_perm (r : Rat) {a a' : Amount κ} (h : a.Perm a') : (mulScalar a r).Perm (mulScalar a' r) := by
+  unfold mulScalar AMap.mapVals; exact h.map _
+
+/-- `TryFrom<&Amount> for PostingAmount` -/
+theorem toPosting_perm {a a' : Amount κ} (h : a.Perm a') : toPosting a = toPosting a' := by
+  by_cases hl : a.length ≤ 1
+  · rw [perm_short h hl]
+  · have hl' : ¬ a'.length ≤ 1 := by rw [← h.length_eq]; exact hl
+    match a, a', hl, hl' with
+    | _ :: _ :: _, _ :: _ :: _, _, _ => rfl
+    | [], _, h1, _ => simp at h1
+    | [_], _, h1, _ => simp at h1
+    | _, [], _, h2 => simp at h2
+    | _, [_], _, h2 => simp at h2
+
+/-- `TryFrom<&Amount> for SingleAmount` (after fix 778e7a8: more than one entry is an error). -/
+theorem toSingle_perm {a a' : Amount κ} (h : a.Perm a') : toSingle a = toSingle a' := by
+  by_cases hl : a.length ≤ 1
+  · rw [perm_short h hl]
+  · have hl' : ¬ a'.length ≤ 1 := by rw [← h.length_eq]; exact hl
+    match a, a', hl, hl' with
+    | _ :: _ :: _, _ :: _ :: _, _, _ => rfl
+    | [], _, h1, _ => simp at h1
+    | [_], _, h1, _ => simp at h1
+    | _, [], _, h2 => simp at h2
+    | _, [_], _, h2 => simp at h2
+
+/-- `assert_balance`: the diff is the same map whichever order the balance is stored in. -/
+theorem assertBalance_perm {a a' : Amount κ} (h : a.Perm a') (hwf : AMap.WF a) (e : PostingAmt κ) :
+    (assertBalance a e).Perm (assertBalance a' e) := by
+  cases e with
+  | zero =>
+    simp only [assertBalance, isZero_perm h]
+    split
+    · exact List.Perm.refl _
+    · exact neg_perm h
+  | single s =>
+    simp only [assertBalance, getPart_perm h hwf s.commodity]
+    exact List.Perm.refl _
+
+/-- `set_partial`: the previous value is the same, the updated maps agree at every key. -/
+theorem setPartial_perm {a a' : Amount κ} (h : a.Perm a') (hwf : AMap.WF a) (s : SingleAmount κ) :
+    (setPartial a s).2 = (setPartial a' s).2 ∧ Ext (setPartial a s).1 (setPartial a' s).1 := by
+  have hwf' := (WF_perm h).1 hwf
+  refine ⟨by simp [setPartial, getPart_perm h hwf], ?_⟩
+  intro k
+  simp only [setPartial]
+  split
+  · simp [AMap.get?_erase _ hwf, AMap.get?_erase _ hwf', get?_perm h hwf k]
+  · simp [AMap.get?_insert, get?_perm h hwf k]
+
+end Amount
+
+/-! ## `check_balance`: the implied exchange does not depend on which entry `maybe_pair` returns first -/
+section Book
+variable {α : Type} [DecidableEq α]
+
+/-- for every permutation of the residual: the same pair, possibly swapped. -/
+theorem impliedExchange_perm {b b' : Amount κ} (h : b.Perm b') :
+    impliedExchange b' = impliedExchange b ∨ impliedExchange b' = (impliedExchange b).map Prod.swap := by
+  match b, h with
+  | [e1, e2], h =>
+    rcases perm_pair h with rfl | rfl
+    · exact Or.inl rfl
+    · exact Or.inr (impliedExchange_swap e1 e2)
+  | [], h => rw [List.nil_perm.1 h]; exact Or.inl rfl
+  | [x], h => rw [List.singleton_perm.1 h]; exact Or.inl rfl
+  | x :: y :: z :: r, h =>
+    have hl := h.length_eq
+    match b', hl with
+    | _ :: _ :: _ :: _, _ => exact Or.inl (by simp [impliedExchange, Amount.maybePair])
+
+/-- the price event logged for `(a1, a2)` and for `(a2, a1)` push the same two records
+(`records[c2][c1] += a2/a1`, `records[c1][c2] += a1/a2`), in the opposite order … -/
+theorem priceRecords_swap (d : Date) (x y : SingleAmount κ) :
+    (PriceEvent.records ⟨d, y, x⟩) = (PriceEvent.records ⟨d, x, y⟩).reverse := by
+  simp [PriceEvent.records]
+
+/-- … and since the two records go to different keys, the repository is the same map either way. -/
+theorem pushRecords_swap (repo : AMap (κ × κ) (List (Date × Rat))) (d : Date) (x y : SingleAmount κ)
+    (hne : x.commodity ≠ y.commodity) :
+    Ext (pushRecords repo (PriceEvent.records ⟨d, y, x⟩)) (pushRecords repo (PriceEvent.records ⟨d, x, y⟩)) := by
+  intro k
+  have hk : (y.commodity, x.commodity) ≠ (x.commodity, y.commodity) := by
+    intro h; exact hne (Prod.mk.inj h).2
+  simp only [PriceEvent.records, pushRecords, AMap.get?_insert]
+  by_cases h1 : (x.commodity, y.commodity) = k <;> by_cases h2 : (y.commodity, x.commodity) = k
+  · exact absurd (h2.trans h1.symm) hk
+  · simp [h1, h2]
+  · simp [h1, h2]
+  · simp [h1, h2]
+
+/-- **`check_balance` is independent of the hash order of the residual.** -/
+theorem checkBalance_perm (prec : κ → Option Nat) (date : Date) (ps : List (OutPosting α κ))
+    {bal bal' : Amount κ} (h : bal.Perm bal') (hwf : AMap.WF bal) :
+    CBSame (checkBalance prec date ps bal) (checkBalance prec date ps bal') := by
+  have hr := Amount.round_perm prec h
+  have hwfr : AMap.WF (Okane.Amount.round prec bal) := AMap.WF_mapValsK _ _ hwf
+  have key := cbTail_perm date ps hr hwfr
+  simp only [checkBalance, Amount.isZero_perm hr]
+  split
+  · simp [CBSame]
+  · exact key
+
+end Book
+
+/-! ## What is printed: every report sorts before it writes -/
+section Display
+variable {α : Type} [DecidableEq α]
+
+/-- **the printed form of an amount is the same for every iteration order** (model of the repaired
+`InlinePrintAmount`). -/
+theorem inlineDisplay_perm {le : κ → κ → Bool} (ho : KeyOrder le) (showEntry : κ → ν → String)
+    {a a' : AMap κ ν} (h : a.Perm a') (hwf : AMap.WF a) :
+    Okane.Amount.inlineDisplay le showEntry a = Okane.Amount.inlineDisplay le showEntry a' := by
+  by_cases hl : a.length ≤ 1
+  · rw [perm_short h hl]
+  · have hl' : ¬ a'.length ≤ 1 := by rw [← h.length_eq]; exact hl
+    match a, a', hl, hl', h, hwf with
+    | x :: y :: r, x' :: y' :: r', _, _, h, hwf =>
+      simp only [Okane.Amount.inlineDisplay, sortByKey_perm ho h hwf]
+    | [], _, h1, _, _, _ => simp at h1
+    | [_], _, h1, _, _, _ => simp at h1
+    | _, [], _, h2, _, _ => simp at h2
+    | _, [_], _, h2, _, _ => simp at h2
+
+/-- every amount of the balance has distinct commodities (and the accounts are distinct). -/
+def BalWF (b : Balance α κ) : Prop := AMap.WF b ∧ ∀ kv ∈ b, AMap.WF kv.2
+
+/-- **`okane balance` prints the same lines for every internal order of the balance**: the accounts may be
+stored in any order (`hperm`), and every account's amount in any order of its commodities (`ρ`, an arbitrary
+re-ordering per account). -/
+theorem balanceReport_reorder {leA : α → α → Bool} {leK : κ → κ → Bool} (hoA : KeyOrder leA) (hoK : KeyOrder leK)
+    (showAcct : α → String) (showEntry : κ → Rat → String) {b mid : Balance α κ}
+    (hperm : b.Perm mid) (hwf : BalWF b) (ρ : α → Amount κ → Amount κ) (hρ : ∀ k a, (ρ k a).Perm a) :
+    balanceReport leA leK showAcct showEntry (mid.map fun kv => (kv.1, ρ kv.1 kv.2)) =
+      balanceReport leA leK showAcct showEntry b := by
+  unfold balanceReport
+  have hsort : sortByKey leA (mid.map fun kv => (kv.1, ρ kv.1 kv.2)) =
+      (sortByKey leA mid).map fun kv => (kv.1, ρ kv.1 kv.2) := by
+    unfold sortByKey
+    exact (List.map_mergeSort (r := fun x y : α × Amount κ => leA x.1 y.1)
+      (s := fun x y : α × Amount κ => leA x.1 y.1) (f := fun kv => (kv.1, ρ kv.1 kv.2))
+      (fun a _ b _ => rfl)).symm
+  rw [hsort, ← sortByKey_perm hoA hperm hwf.1, List.map_map]
+  apply List.map_congr_left
+  intro kv hkv
+  have hmem : kv ∈ b := (List.mergeSort_perm b _).subset hkv
+  have hw : AMap.WF kv.2 := hwf.2 kv hmem
+  simp only [Function.comp]
+  rw [inlineDisplay_perm hoK showEntry (hρ kv.1 kv.2).symm hw]
+
+/-- `okane accounts`: the sorted list of canonical names does not depend on the order of the intern store. -/
+theorem accountsReport_perm {le : String → String → Bool} (ho : KeyOrder le)
+    {recs recs' : AMap String (Option String)} (h : recs.Perm recs') (hwf : AMap.WF recs) :
+    accountsReport le recs = accountsReport le recs' := by
+  unfold accountsReport
+  have hp : ((recs.filter fun kv => kv.2.isNone).map Prod.fst).Perm ((recs'.filter fun kv => kv.2.isNone).map Prod.fst) :=
+    (h.filter _).map _
+  have hnd : ((recs.filter fun kv => kv.2.isNone).map Prod.fst).Nodup := by
+    have : ((recs.filter fun kv => kv.2.isNone).map Prod.fst).Sublist (recs.map Prod.fst) :=
+      List.Sublist.map _ List.filter_sublist
+    exact this.nodup hwf
+  have s1 := List.pairwise_mergeSort (le := le) ho.trans ho.total ((recs.filter fun kv => kv.2.isNone).map Prod.fst)
+  have s2 := List.pairwise_mergeSort (le := le) ho.trans ho.total ((recs'.filter fun kv => kv.2.isNone).map Prod.fst)
+  refine List.Perm.eq_of_pairwise (le := fun a b => le a b = true) ?_ s1 s2
+    ((List.mergeSort_perm _ _).trans (hp.trans (List.mergeSort_perm _ _).symm))
+  intro a b _ _ hab hba
+  exact ho.antisymm a b hab hba
+
+/-- the text of a book-keeping error carrying amounts (`unbalanced postings: …`, assertion failures) is the
+same for every order of those amounts. -/
+theorem bkErrText_unbalanced_perm {leK : κ → κ → Bool} (hoK : KeyOrder leK) (showEntry : κ → Rat → String)
+    {r r' : Amount κ} (h : r.Perm r') (hwf : AMap.WF r) :
+    bkErrText leK showEntry (.unbalanced r) = bkErrText leK showEntry (.unbalanced r') := by
+  have e := inlineDisplay_perm hoK showEntry h hwf
+  show "unbalanced postings: " ++ Okane.Amount.inlineDisplay leK showEntry r =
+    "unbalanced postings: " ++ Okane.Amount.inlineDisplay leK showEntry r'
+  rw [e]
+
+theorem bkErrText_assertion_perm {leK : κ → κ → Bool} (hoK : KeyOrder leK) (showEntry : κ → Rat → String) (i : Nat)
+    {c c' d d' : Amount κ} (hc : c.Perm c') (hwc : AMap.WF c) (hd : d.Perm d') (hwd : AMap.WF d) :
+    bkErrText leK showEntry (.assertionFailure i c d) = bkErrText leK showEntry (.assertionFailure i c' d') := by
+  have e1 := inlineDisplay_perm hoK showEntry hc hwc
+  have e2 := inlineDisplay_perm hoK showEntry hd hwd
+  show "balance assertion failed at posting " ++ toString i ++ ": computed " ++
+      Okane.Amount.inlineDisplay leK showEntry c ++ " diff " ++ Okane.Amount.inlineDisplay leK showEntry d =
+    "balance assertion failed at posting " ++ toString i ++ ": computed " ++
+      Okane.Amount.inlineDisplay leK showEntry c' ++ " diff " ++ Okane.Amount.inlineDisplay leK showEntry d'
+  rw [e1, e2]
+
+end Display
+
+/-! ## Orders used by the driver and by the examples -/
+
+/-! ## Non-vacuity: the hypotheses are met by non-trivial concrete states, and the conclusions are not
+trivially true (the raw operations *are* order-sensitive) -/
+section Examples
+
+def showNat (c : Nat) (v : Rat) : String := toString v ++ " C" ++ toString c
+
+private def a3 : Amount Nat := [(2, 10), (1, -3), (3, 5)]
+private def a3' : Amount Nat := [(3, 5), (2, 10), (1, -3)]
+private theorem a3_perm : a3.Perm a3' := by decide
+private theorem a3_wf : AMap.WF a3 := by simp [AMap.WF, AMap.keys, a3]
+
+example : Okane.Amount.inlineDisplay (fun a b : Nat => decide (a ≤ b)) showNat a3 =
+    Okane.Amount.inlineDisplay (fun a b : Nat => decide (a ≤ b)) showNat a3' :=
+  inlineDisplay_perm keyOrder_nat showNat a3_perm a3_wf
+
+example : ∀ c, Okane.Amount.getPart (Okane.Amount.add a3 a3') c = Okane.Amount.getPart (Okane.Amount.add a3' a3) c :=
+  fun c => Amount.getPart_add_perm a3_perm a3_wf a3_perm.symm c
+
+/-- the unsorted printer (the code before fix 9572056) is **not** order-independent: F13's witness. -/
+theorem inlineDisplayUnsorted_order_dependent :
+    ¬ ∀ (a a' : Amount Nat), a.Perm a' → AMap.WF a →
+        Okane.Amount.inlineDisplayUnsorted showNat a = Okane.Amount.inlineDisplayUnsorted showNat a' := by
+  intro h
+  have := h [(1, 1), (2, 2)] [(2, 2), (1, 1)] (by decide) (by simp [AMap.WF, AMap.keys])
+  revert this
+  decide
+
+/-- `maybe_pair` itself is order-sensitive (so `checkBalance_perm` says something). -/
+theorem maybePair_order_dependent :
+    ∃ b b' : Amount Nat, b.Perm b' ∧ AMap.WF b ∧ Okane.Amount.maybePair b ≠ Okane.Amount.maybePair b' :=
+  ⟨[(1, 5), (2, -7)], [(2, -7), (1, 5)], by decide, by simp [AMap.WF, AMap.keys], by decide +kernel⟩
+
+/-- a residual `5 C1 − 7 C2` is an implied exchange in both orders, with swapped roles. -/
+example : impliedExchange ([(1, 5), (2, -7)] : Amount Nat) = some (⟨5, 1⟩, ⟨-7, 2⟩) ∧
+    impliedExchange ([(2, -7), (1, 5)] : Amount Nat) = some (⟨-7, 2⟩, ⟨5, 1⟩) := by
+  constructor <;> decide +kernel
+
+example : CBSame (α := Nat)
+    (checkBalance (fun _ => none) ⟨2024, 1, 1⟩ [⟨7, [(1, 5)], none⟩, ⟨8, [(2, -7)], none⟩] [(1, 5), (2, -7)])
+    (checkBalance (fun _ => none) ⟨2024, 1, 1⟩ [⟨7, [(1, 5)], none⟩, ⟨8, [(2, -7)], none⟩] [(2, -7), (1, 5)]) :=
+  checkBalance_perm _ _ _ (by decide) (by simp [AMap.WF, AMap.keys])
+
+end Examples
+
+/-! ## Rewrite rules: the AND-element of a matcher is folded in the hash order of its fields (F14)
+
+`MatchAndExpr::extract` is `matchers.iter().try_fold(current, |prev, m| m.captures(&prev, entity).map(|c| prev + c))`
+and `matchers` is built from `FieldMatcher.fields : HashMap<RewriteField, String>` in iteration order.  Abstractly a
+matcher reads the payee captured so far and either fails or yields a new capture. -/
+section AndElement
+
+/-- what C13 needs of an AND element. -/
+def C13_andElement : Prop := ∀ (ms ms' : List FieldM) (cur : Option String), ms.Perm ms' → andFold ms cur = andFold ms' cur
+
+/-- **F14**: it does not hold — the element `{creditor_name: (?P<payee>.*), payee: ACME}` matches in one order and
+not in the other (the real binary shows both behaviours across processes; witness in known_findings.json). -/
+theorem C13_andElement_false : ¬ C13_andElement := by
+  intro h
+  have := h [captureCreditor, matchPayee] [matchPayee, captureCreditor] none (List.Perm.swap _ _ _)
+  revert this
+  decide
+
+/-- what does hold: elements whose matchers neither read nor write the shared capture commute. -/
+theorem andFold_perm_of_independent {ms ms' : List FieldM} (h : ms.Perm ms')
+    (hind : ∀ m ∈ ms, ∃ ok : Bool, ∀ cur, m cur = if ok then some none else none) (cur : Option String) :
+    andFold ms cur = andFold ms' cur := by
+  induction h generalizing cur with
+  | nil => rfl
+  | @cons x l₁ l₂ _ ih =>
+    obtain ⟨ok, hx⟩ := hind x (by simp)
+    simp only [andFold, hx]
+    cases ok
+    · simp
+    · simp only [if_true]
+      exact ih (fun m hm => hind m (List.mem_cons_of_mem _ hm)) _
+  | swap x y l =>
+    obtain ⟨okx, hx⟩ := hind x (by simp)
+    obtain ⟨oky, hy⟩ := hind y (by simp)
+    simp only [andFold, hx, hy]
+    cases okx <;> cases oky <;> simp [Option.orElse]
+  | @trans l₁ l₂ l₃ h1 _ ih1 ih2 =>
+    rw [ih1 hind, ih2 (fun m hm => hind m (h1.symm.subset hm))]
+
+example : andFold [fun _ => some none, fun _ => some none] (some "x") = some (some "x") := by decide
+
+end AndElement
+
+/-! ## The end-to-end statements
+
+`cmd π x`: the text (stdout, or the error text) the command prints for input `x` when the hash maps it builds iterate
+in the orders `π`.  In the Rust every map is a `HashMap` with a per-process random seed, so a fresh process is a fresh
+`π`.  The statement of C13 for a command is `Deterministic cmd`.  It is proved above for the layers whose models are
+complete (amount arithmetic, `check_balance`, the printed form of amounts, the `balance` lines, the `accounts` list,
+error texts carrying amounts); for whole commands the supporting models (loader, parser, price repository, importer)
+are other properties' models, so the statements are recorded here as `Prop`s and the real binary is *observed*
+(N fresh processes per input, byte-identical stdout / stderr / exit status) by the check's process-level stream. -/
+section EndToEnd
+variable {Orders Input Output : Type}
+
+def Deterministic (cmd : Orders → Input → Output) : Prop := ∀ π₁ π₂ x, cmd π₁ x = cmd π₂ x
+
+def C13_format (cmd : Orders → Input → Output) : Prop := Deterministic cmd
+def C13_accounts (cmd : Orders → Input → Output) : Prop := Deterministic cmd
+def C13_balance (cmd : Orders → Input → Output) : Prop := Deterministic cmd
+def C13_balance_exchange (cmd : Orders → Input → Output) : Prop := Deterministic cmd
+def C13_register (cmd : Orders → Input → Output) : Prop := Deterministic cmd
+def C13_eval (cmd : Orders → Input → Output) : Prop := Deterministic cmd
+def C13_import (cmd : Orders → Input → Output) : Prop := Deterministic cmd
+
+/-- a command whose only use of the orders is to re-order a balance before `balanceReport` is deterministic:
+the instance of `C13_balance` that the models above support (orders = an account permutation and a per-account
+commodity re-ordering; input = the balance computed by book-keeping). -/
+theorem C13_balance_report {α κ : Type} [DecidableEq α] [DecidableEq κ]
+    {leA : α → α → Bool} {leK : κ → κ → Bool} (hoA : KeyOrder leA) (hoK : KeyOrder leK)
+    (showAcct : α → String) (showEntry : κ → Rat → String) :
+    C13_balance (Orders := { p : (Balance α κ → Balance α κ) × (α → Amount κ → Amount κ) //
+                              (∀ b, (p.1 b).Perm b) ∧ ∀ k a, (p.2 k a).Perm a })
+      (Input := { b : Balance α κ // BalWF b })
+      (fun π b => balanceReport leA leK showAcct showEntry ((π.1.1 b.1).map fun kv => (kv.1, π.1.2 kv.1 kv.2))) := by
+  intro π₁ π₂ b
+  simp only []
+  rw [balanceReport_reorder hoA hoK showAcct showEntry (π₁.2.1 b.1).symm b.2 π₁.1.2 π₁.2.2,
+      balanceReport_reorder hoA hoK showAcct showEntry (π₂.2.1 b.1).symm b.2 π₂.1.2 π₂.2.2]
+
+end EndToEnd
+end Okane.C13
